@@ -92,6 +92,14 @@ def gen_target(run, n=240):
     if ok: run.suite('target', 'target_corr.py', [run.seed, n * (5 if run.tier == 'thorough' else 1)], 'TG')
     return ok
 
+def gen_maptarget(run, n=240):
+    """the mapping API's copy of the wrapper walk (NixSourceCode._resolve_target_set): frame matched literally, model proved about and run against the implementation"""
+    ok = run.generate('maptarget2v(expressions/source_code.py: NixSourceCode._resolve_target_set, frame matched literally)',
+                      ['-W', 'ignore', os.path.join(VERIF, 'tools', 'maptarget2v.py'), REPO], 'MapTargetGen.v')
+    run.dyn_compile(['MapTargetGen', 'MapTargetProps'])
+    if ok: run.suite('mapping-target', 'target_corr.py', [run.seed, n * (5 if run.tier == 'thorough' else 1), 'mapping'], 'TM')
+    return ok
+
 def gen_cli(run):
     return run.generate('cli2v(cli/main.py:main match arms)', ['-W', 'ignore', os.path.join(VERIF, 'tools', 'cli2v.py'), REPO], 'CliGen.v')
 
@@ -161,6 +169,7 @@ def C09(run):
 def C14(run):
     run.static()
     gen_find(run)
+    gen_target(run, 120); gen_maptarget(run)      # text edits and mapping edits pick their set by two copies of one walk: both tied, agreement proved on wrapper stacks
     run.props()
     big = run.tier == 'thorough'
     run.suite('mapping', 'map_corr.py', [run.seed, 4800 if big else 800], 'MP')
